@@ -595,3 +595,59 @@ Example C13_helpers_example :
   | Err _ => False
   end.
 Proof. vm_compute. repeat split. Qed.
+
+(* ---- the constructors of the shipped generators / smoothers (retrospective.py; Generated/SrcInits.v, one translated __init__ per class):
+   each stores its argument(s), so the attribute `self.<x>` its translated method reads - the model parameter of the links above - is
+   the value the object was constructed with ---- *)
+From Batchie Require Import Lib.PyRt Generated.SrcInits Proofs.C13Source_Init_SparseCover Proofs.C13Source_Init_Pairwise
+  Proofs.C13Source_Init_PlatePermutation Proofs.C13Source_Init_SampleSeg Proofs.C13Source_Init_MergeMin Proofs.C13Source_Init_MergeTopBottom
+  Proofs.C13Source_Init_FixedSize Proofs.C13Source_Init_NPlate Proofs.C13Source_Init_Ensemble Proofs.C13Source_ConstructedSmoothers.
+Theorem C13_model_is_source_sparse_cover_init : forall reveal : bool, src_sparse_cover_init reveal = Ok reveal.
+Proof. exact src_sparse_cover_init_stores. Qed.
+Print Assumptions C13_model_is_source_sparse_cover_init.
+
+Theorem C13_model_is_source_pairwise_init : forall subset_size anchor_size : Z, src_pairwise_init subset_size anchor_size = Ok (subset_size, anchor_size).
+Proof. exact src_pairwise_init_stores. Qed.
+Print Assumptions C13_model_is_source_pairwise_init.
+
+Theorem C13_model_is_source_plate_permutation_init : forall force : option (list name), src_plate_permutation_init force = Ok force.
+Proof. exact src_plate_permutation_init_stores. Qed.
+Print Assumptions C13_model_is_source_plate_permutation_init.
+
+Theorem C13_model_is_source_sample_segregating_init : forall max_plate_size : Z, src_sample_seg_init max_plate_size = Ok max_plate_size.
+Proof. exact src_sample_seg_init_stores. Qed.
+Print Assumptions C13_model_is_source_sample_segregating_init.
+
+Theorem C13_model_is_source_merge_min_init : forall min_size : Z, src_merge_min_init min_size = Ok min_size.
+Proof. exact src_merge_min_init_stores. Qed.
+Print Assumptions C13_model_is_source_merge_min_init.
+
+Theorem C13_model_is_source_merge_top_bottom_init : forall n_iterations : Z, src_merge_tb_init n_iterations = Ok n_iterations.
+Proof. exact src_merge_tb_init_stores. Qed.
+Print Assumptions C13_model_is_source_merge_top_bottom_init.
+
+Theorem C13_model_is_source_fixed_size_init : forall plate_size : Z, src_fixed_size_init plate_size = Ok plate_size.
+Proof. exact src_fixed_size_init_stores. Qed.
+Print Assumptions C13_model_is_source_fixed_size_init.
+
+Theorem C13_model_is_source_nplate_init : forall m : Z, src_nplate_init m = Ok m.
+Proof. exact src_nplate_init_stores. Qed.
+Print Assumptions C13_model_is_source_nplate_init.
+
+Theorem C13_model_is_source_ensemble_init : forall min_size n_iterations m : Z, src_ensemble_init min_size n_iterations m = Ok (min_size, n_iterations, m).
+Proof. exact src_ensemble_init_stores. Qed.
+Print Assumptions C13_model_is_source_ensemble_init.
+
+(* composed with the translated methods: a MergeMin smoother constructed with min_size merges up to that size ... *)
+Theorem C13_source_constructed_merge_min : forall min_size rows ds fuel, (length rows < fuel)%nat ->
+  (dor m <- src_merge_min_init min_size; src_merge_min_smooth_plates m rows ds fuel) = merge_min min_size rows ds.
+Proof. exact constructed_merge_min_uses_its_min_size. Qed.
+Print Assumptions C13_source_constructed_merge_min.
+
+(* ... and the ensemble runs its four stages with the three parameters it was constructed with *)
+Theorem C13_source_constructed_ensemble : forall ms n m rows ds fuel, (length rows < fuel)%nat ->
+  (dor p <- src_ensemble_init ms n m; src_ensemble_smooth_plates (fst (fst p)) (snd (fst p)) (snd p) rows ds fuel)
+  = ensemble true ms n m rows ds.
+Proof. exact constructed_ensemble_uses_its_parameters. Qed.
+Print Assumptions C13_source_constructed_ensemble.
+
